@@ -79,9 +79,14 @@ fn weighted<T: Copy>(r: &mut Rng, xs: &[(T, u64)]) -> T {
     xs[0].0
 }
 
-pub fn gen_cfg(r: &mut Rng, h: u64, seed: u64) -> Cfg {
-    let native = r.chance(1, 2);
-    let dp: u32 = if native { 6 } else { *r.pick(&[6u32, 9]) };
+/// `force = Some((native, dp))` fixes the collateral (twin mode); the PRNG draws stay the same
+pub fn gen_cfg(r: &mut Rng, h: u64, seed: u64, force: Option<(bool, u32)>) -> Cfg {
+    let mut native = r.chance(1, 2);
+    let mut dp: u32 = if native { 6 } else { *r.pick(&[6u32, 9]) };
+    if let Some((n, p)) = force {
+        native = n;
+        dp = p;
+    }
     let d = 10u128.pow(dp);
     let real_feed = r.chance(15, 100);
     // ratios in 1/10000 of D
